@@ -197,11 +197,11 @@ pub fn check_archive(ctx: &Ctx, case: &ArcCase) -> Report {
 
 fn arc_strategy() -> impl Strategy<Value = ArcCase> {
     // biased to one PanSN file with at least pack-cardinality contigs (sync-token rounds)
-    let many_contigs = (gen::collection_strategy(GenCfg { max_contig: 1500, max_samples: 4, many_samples_pct: 30, single_file: Some(true), vary_presentation: false }), 1u32..9).prop_map(|(mut c, pack)| {
+    let many_contigs = (gen::collection_strategy(GenCfg { max_contig: 1500, max_samples: 4, many_samples_pct: 30, single_file: Some(true), vary_presentation: false, swarm_pct: 0 }), 1u32..9).prop_map(|(mut c, pack)| {
         c.params.pack = pack;
         ArcCase { collection: c }
     });
-    let general = gen::collection_strategy(GenCfg { max_contig: 4000, max_samples: 4, many_samples_pct: 3, single_file: None, vary_presentation: false }).prop_map(|collection| ArcCase { collection });
+    let general = gen::collection_strategy(GenCfg { max_contig: 4000, max_samples: 4, many_samples_pct: 3, single_file: None, vary_presentation: false, swarm_pct: 0 }).prop_map(|collection| ArcCase { collection });
     prop_oneof![3 => many_contigs, 2 => general]
 }
 
